@@ -272,14 +272,21 @@ def cmd_check_c20(args):
     t0 = time.time()
     # variant 0 (mirror of the demo) + seeded variants chosen greedily so that every transformation kind is covered
     cand = [1 + (O.derive(base_seed, "c20variant", i) % 100000) for i in range(max(200, n_var * 4))]
-    variants, covered = [0], set()
-    for v in cand:
-        if len(variants) >= n_var:
-            break
-        tr = set(confgen.make_variant(v).get("transformations", []))
-        if tr - covered or len(variants) >= (n_var + 1) // 2:
-            variants.append(v)
-            covered |= tr
+    # greedy: every transformation kind at least once, the STRUCTURAL ones (other shapes of the template table, not only
+    # other names) twice when the number of variants allows
+    structural = {"insert_level", "remove_level", "third_base", "leaf_per_base", "declare_intermediate", "type_mapping",
+                  "leaf_only", "separator"}
+    trs = {v: set(confgen.make_variant(v).get("transformations", [])) for v in cand}
+    variants, count = [0], Counter()
+    pool_v = list(cand)
+    while len(variants) < n_var and pool_v:
+        def gain(v):
+            return sum((2 if t in structural else 1) for t in trs[v] if count[t] == 0) + \
+                   sum(1 for t in trs[v] if t in structural and count[t] == 1)
+        best = max(pool_v[:120], key=lambda v: (gain(v), -pool_v.index(v)))
+        pool_v.remove(best)
+        variants.append(best)
+        count.update(trs[best])
     if not args.mutant_mode:
         variants.insert(1, confgen.FRAME_VARIANT)     # key-name-only variant, see confgen.py (second: never dropped by the soft budget)
     if args.variant is not None:
